@@ -2,6 +2,7 @@
 package mon
 
 import (
+	"math"
 	"reflect"
 	"strings"
 	"time"
@@ -121,7 +122,7 @@ func mutateAll[T any](root *T, otherZone *time.Location, skip func(path string) 
 		case reflect.Int, reflect.Int8, reflect.Int16, reflect.Int32, reflect.Int64,
 			reflect.Uint, reflect.Uint8, reflect.Uint16, reflect.Uint32, reflect.Uint64,
 			reflect.Float32, reflect.Float64:
-			points = append(points, point{path, "num+1"}, point{path, "num-zero-toggle"})
+			points = append(points, point{path, "num+1"}, point{path, "num-zero-toggle"}, point{path, "num-next"}, point{path, "num-negate"})
 		}
 	}
 	walk(reflect.ValueOf(root).Elem(), "", 0)
@@ -220,6 +221,53 @@ func applyMutation(v reflect.Value, path, target, kind string, otherZone *time.L
 			return true
 		case "flip":
 			v.SetBool(!v.Bool())
+			return true
+		case "num-next":
+			// the smallest change the type can express at a distance where narrower types cannot follow: one ulp for
+			// floats, 2^32 for 64-bit integers (a hash that narrows float64 to float32 or int64 to int32 collides here)
+			switch v.Kind() {
+			case reflect.Float64:
+				f := v.Float()
+				if math.IsNaN(f) || math.IsInf(f, 0) {
+					return false
+				}
+				v.SetFloat(math.Nextafter(f, math.Inf(1)))
+			case reflect.Float32:
+				f := float32(v.Float())
+				if f != f || math.IsInf(float64(f), 0) {
+					return false
+				}
+				v.SetFloat(float64(math.Nextafter32(f, float32(math.Inf(1)))))
+			case reflect.Int, reflect.Int64:
+				if v.Int() > math.MaxInt64-(1<<32) {
+					return false
+				}
+				v.SetInt(v.Int() + 1<<32)
+			case reflect.Uint, reflect.Uint64:
+				if v.Uint() > math.MaxUint64-(1<<32) {
+					return false
+				}
+				v.SetUint(v.Uint() + 1<<32)
+			default:
+				return false
+			}
+			return true
+		case "num-negate":
+			switch v.Kind() {
+			case reflect.Float32, reflect.Float64:
+				f := v.Float()
+				if f == 0 || math.IsNaN(f) {
+					return false
+				}
+				v.SetFloat(-f)
+			case reflect.Int, reflect.Int8, reflect.Int16, reflect.Int32, reflect.Int64:
+				if v.Int() == 0 || v.Int() == math.MinInt64 || v.OverflowInt(-v.Int()) {
+					return false
+				}
+				v.SetInt(-v.Int())
+			default:
+				return false
+			}
 			return true
 		case "num+1", "num-zero-toggle":
 			switch v.Kind() {
